@@ -197,7 +197,7 @@ def shard_features(m, items, tier='quick'):
 
 
 def shard_cuts(m, items, inputs=()):
-    for name, exp, extra, _ne, _nx in items:
+    for name, exp, extra, _ne, _nx, _b in items:
         g = gs.Grammar(rules=[gs.Rule('start', exp)] + list(extra))
         label = '; '.join(gs.render_rule(r) for r in g.rules)
         try:
